@@ -116,6 +116,7 @@ static void use_everything(const char *who, int ncb_before, int lfht)
 	for (i = 0; i <= ncb_before; i++)
 		VRT_CHECK(vrt_note_get(N_CNT(i)) == 1, "%s: callback %d (%s the fork) ran %lu times in this process", who, i,
 			  i < ncb_before ? "queued before" : "queued after", vrt_note_get(N_CNT(i)));
+	vrt_sample("%s after fork: %d callbacks queued before the fork and 1 after each ran once; synchronize_rcu, rcu_barrier returned", who, ncb_before);
 	if (lfht) {
 		struct cds_lfht *ht = cds_lfht_new_flavor(1, 1, 8, lfht == 2 ? CDS_LFHT_AUTO_RESIZE : 0, &rcu_flavor, NULL);
 		struct cds_lfht_node *nodes = calloc(6, sizeof(*nodes));
